@@ -202,11 +202,86 @@ Print Assumptions C04_deadline_fixed.
 Print Assumptions C04_xpoll_never_infinite.
 Print Assumptions C04_xpoll_within_deadline.
 
-(* OPEN (DESIGN §5 C04):
-   C04_progress  "pending c > 0 at time t  ->  pending c = 0 at some t' <= t + bound" (bounded time) is not proved: it needs a
-   liveness argument over the script semantics (C04_no_timerless_wait + C12_timeout_fails_queue give the ingredients: a
-   positive time-out no later than the head deadline is always requested, and the pass that finds the deadline passed
-   completes the whole queue).  The daemon-level invariant is proved for coprocess transports; for tcp devices the telnet
-   option replies queued into dev->to by the preprocess step fall outside the device-layer invariant (inv_to), so those
-   histories are covered by the per-pass R-SIM replay only.  Fuel exhaustion (Hang) of the statement interpreter is not
-   excluded by a theorem. *)
+(* ---------------- the bounded-time clause (Proofs/DeviceDeadline.v, DaemonDeadline.v) ----------------
+   What is TRUE of the code, and proved: a deadline is enforced on the action that is the HEAD of a device's queue when
+   _process_action runs; the pass that finds it expired completes it and everything queued behind it (D1); over any run of
+   passes in which no connection is established under the queue (`steady`: silent peer, garbage, refused connections, ...)
+   everything queued is completed by `bound` = head stamp + span * time-out (D2), and at the level of the whole daemon the
+   client then has its terminal reply (D3).
+   What is FALSE, and refuted (C04_bounded_time_refuted, finding F41, confirmed on the real device.c): without `steady`
+   there is no bound at all - every connection that comes up puts a FRESH login (deadline now + time-out) in front of the
+   queue, so a peer that accepts, never answers the login and hangs up before the login's deadline postpones the client's
+   action for ever as soon as the device's time-out exceeds the longest reconnect back-off step (60 s; three shipped
+   specifications use 100 s).
+   (* OPEN *)  C04_progress for the unsteady case with time-out <= 60 s (the back-off ends the game after a bounded number of
+   re-logins), and the link from pass times to the time-outs the passes request (C04_no_timerless_wait + Model/Xpoll.v). *)
+From PM Require Import Proofs.DeviceMask Proofs.DeviceDeadline Proofs.DeviceDeadlineEx Proofs.DaemonDeadline.
+
+(* D1: one device's share of one pass, head past its deadline: all queued actions complete in this pass, or the expired
+   login was dropped by a disconnect and nothing came back, or a connection was established in this very pass *)
+Theorem C04_deadline_pass : forall rmatch compress sc now d store tmo pin act0 rest,
+  DInvG compress d -> tmo_pos tmo -> 0 <= dv_retry_count d ->
+  dv_acts d = act0 :: rest -> hstamp now act0 + dv_timeout d <= now ->
+  flushes rmatch compress sc now d store tmo pin
+  \/
+  (exists d' st' tmo' evs, post_poll_one rmatch compress sc now d store tmo pin = Ok (d', st', tmo', evs) /\
+     is_login act0 = true /\ dv_cstate d' <> DEV_CONNECTED /\ completions evs = [] /\ queued d' = queued d /\
+     exists a1 r1, rest = a1 :: r1 /\ now < hstamp now a1 + dv_timeout d /\ kept now a1 r1 (dv_acts d'))
+  \/
+  (exists d3 t3 pl e12 Lf new, pp_front now d tmo pin = Ok (d3, t3, pl, e12) /\ dv_cstate d3 = DEV_CONNECTED /\
+     fresh_login Lf /\ pings new /\ dv_acts d3 = Lf :: rw (nolog (act0 :: rest)) ++ new /\
+     ((dv_cstate d = DEV_CONNECTING /\ pi_finish_ok pin = true /\ pi_out pin = true) \/ hd ConnFail (pi_plans pin) = ConnNow) /\
+     match post_poll_one rmatch compress sc now d store tmo pin with
+     | Ok (d', _, _, evs) => completions evs ++ queued d' = queued d
+     | Hang _ => True
+     | _ => False
+     end).
+Proof. exact deadline_pass. Qed.
+Print Assumptions C04_deadline_pass.
+
+(* D2: any run of passes with non-decreasing clocks, nothing appended, no connection established under the queue: once a
+   pass happens at or after `bound`, everything that was queued has been completed, in queue order *)
+Theorem C04_deadline_reached : forall rmatch compress sc p r d t0 d' evs,
+  DInvG compress d -> 0 <= dv_retry_count d -> 0 < dv_timeout d -> stamps_le t0 (dv_acts d) ->
+  clocks_from t0 (p :: r) -> Forall (fun p => tmo_pos (p_tmo p)) (p :: r) -> steady_run rmatch compress sc (p :: r) d ->
+  passes rmatch compress sc (p :: r) d = Ok (d', evs) ->
+  bound (p_now p) d <= last_clock t0 (p :: r) ->
+  completions evs = queued d /\ queued d' = [].
+Proof. exact deadline_reached. Qed.
+Print Assumptions C04_deadline_reached.
+
+(* D3: a whole round of the select loop: if, after the client pass, every device that holds an action of client `id` has
+   its head past its deadline and stays steady in this pass, the round leaves `id` with no queued action, no command in
+   progress and one terminal reply per request line *)
+Theorem C04_answer_by_deadline : forall expand_str ranged_sorted ranged_plain sorted rmatch compress short_circuit st r id,
+  DPInv compress st -> NL st -> 1 <= dm_seq st < INT_MAX ->
+  (forall st1 e1, cli_post_poll expand_str ranged_sorted ranged_plain sorted st r = Ok (st1, e1) -> due (r_now r) st1 (r_dev r) 0 id) ->
+  match dstep expand_str ranged_sorted ranged_plain sorted rmatch compress short_circuit st r with
+  | Ok (st', _) => DPInv compress st' /\ ~ In id (qall (dm_devs st')) /\ answered st' id
+  | Hang _ => True
+  | _ => False
+  end.
+Proof. exact dstep_deadline. Qed.
+Print Assumptions C04_answer_by_deadline.
+
+(* F41: without `steady` the conclusion of C04_deadline_reached is false.  Device time-out 100 s; the peer accepts every
+   connection at once, never answers the login and hangs up after 61 s, fifty times: 3051 s later - 28 time-outs past the
+   bound - client 7's action is still queued, has never been stamped, and nothing has been reported to the client.
+   The same history run against the real device.c (props/C04.py, stage bounded-time) gives the same trace. *)
+Theorem C04_bounded_time_refuted :
+  exists d t0 p r d' evs,
+    DInvG cp d /\ 0 <= dv_retry_count d /\ 0 < dv_timeout d /\ stamps_le t0 (dv_acts d) /\
+    clocks_from t0 (p :: r) /\ Forall (fun p => tmo_pos (p_tmo p)) (p :: r) /\
+    passes rm cp false (p :: r) d = Ok (d', evs) /\
+    bound (p_now p) d + 28 * dv_timeout d <= last_clock t0 (p :: r) /\
+    queued d = [7] /\ completions evs = [] /\ queued d' = [7] /\
+    map (fun a => (a_com a, a_client a, a_stamp a)) (dv_acts d') = [(PM_LOG_IN, 0, Some 3051000000); (PM_POWER_ON, 7, None)].
+Proof. exact deadline_unsteady_refuted. Qed.
+Print Assumptions C04_bounded_time_refuted.
+(* non-vacuity of D2 / D3: Proofs/DeviceDeadlineEx.deadline_reached_example (passes at 2, 6, 11 s on a silent device: the bound is
+   11 s and the theorem yields the completion) and Proofs/DeviceDeadlineDaemonEx.dstep_deadline_example (this file's example daemon
+   in the round at 7 s) *)
+Example C04_deadline_nonvacuous :
+  exists d' evs, passes rm cp false ps5 d5 = Ok (d', evs) /\ bound 2000000 d5 = 11000000 /\ last_clock 1000000 ps5 = 11000000 /\
+                 completions evs = [7] /\ queued d' = [].
+Proof. exact deadline_reached_example. Qed.
